@@ -392,7 +392,7 @@ func buildSweeps(thorough bool) []sweep {
 		{Kind: "apikey", Name: "X-Key", In: "header", Token: "Bearer tok"},
 		{Kind: "apikey", Name: "X-Key", In: "header", Token: "Basic dTpw"},
 		{Kind: "apikey", Name: "api_key", In: "query", Token: "tok"},
-		{Kind: "apikey", Name: "X-Key", In: "query", Token: "tok"},  // the header's name, in the query
+		{Kind: "apikey", Name: "X-Key", In: "query", Token: "tok"},    // the header's name, in the query
 		{Kind: "apikey", Name: "api_key", In: "header", Token: "tok"}, // the query's name, in a header
 		{Kind: "passthrough"},
 	}
